@@ -1,2 +1,82 @@
 import SynthVerif.Src.Prelude
-/-! Dependency crates as seen from the translated source (filled in per module). -/
+import SynthVerif.Model.Ribbon
+/-!
+# Dependency crates as the translated source sees them   (hand-written; no Mathlib)
+
+The translator (`tools/rs2lean.py`) translates the crate's own source.  Calls into the dependency crates are mapped to the
+definitions below, written by hand after the dependencies' source (versions pinned by /repo/Cargo.lock) at the level the
+crate uses them.  They are part of the trusted base of tie 1d and are validated, like the whole model, by the
+bit-exact correspondence runs (the harness calls the real dependency code).
+
+* `heapless::HistoryBuffer<f32, N>` is `HistBuf` of `Model/Ribbon.lean`; `Iterator::sum::<f32>()` is `Deps.fsum`.
+* `biquad 0.4.2`: `Hertz<f32>`, `ToHertz::hz`, `Coefficients::<f32>::from_params` for the filter type in use,
+  `DirectForm1::<f32>` (`new`, `run`, `update_coefficients`).
+-/
+open F32
+
+instance : Inhabited HistBuf := ⟨HistBuf.new 0⟩
+
+namespace Deps
+
+/-- `Iterator::sum::<f32>()`: folds `+` from the additive identity the standard library uses (`Gen.sumInitBits`, read
+from the compiled crate) -/
+def fsum (xs : List F32) : F32 := xs.foldl F32.add (F32.ofBits Gen.sumInitBits)
+
+/-- `biquad::Hertz<f32>` -/
+structure Hertz where
+  v : F32
+deriving Inhabited
+
+/-- `x.hz()` = `Hertz::<f32>::from_hz(x).unwrap()`: panics unless `x > 0` -/
+def hz (x : F32) : Option Hertz := if F32.lt F32.zero x then some ⟨x⟩ else none
+
+inductive FilterType | SinglePoleLowPassApprox | SinglePoleLowPass | LowPass
+deriving DecidableEq, Inhabited
+
+/-- `biquad::Coefficients<f32>` -/
+structure Coefficients where
+  a1 : F32
+  a2 : F32
+  b0 : F32
+  b1 : F32
+  b2 : F32
+deriving Inhabited
+
+def two : F32 := .fin 2 false
+def pi32 : F32 := F32.ofBits Gen.piBits
+
+/-- `Coefficients::<f32>::from_params(filter, fs, f0, q)`; `none` = `Err(_)` (the crate `unwrap`s it).  Only the filter
+type the crate uses is described; any other type is `none`, i.e. nothing is claimed about it. -/
+def from_params (filter : FilterType) (fs f0 : Hertz) (q : F32) : Option Coefficients :=
+  if F32.lt fs.v (F32.mul two f0.v) then none            -- Err(OutsideNyquist)
+  else if F32.lt q F32.zero then none                    -- Err(NegativeQ)
+  else
+    let omega := F32.div (F32.mul (F32.mul two pi32) f0.v) fs.v
+    match filter with
+    | .SinglePoleLowPassApprox =>
+      let alpha := F32.div omega (F32.add omega F32.one)
+      some { a1 := F32.sub alpha F32.one, a2 := F32.zero, b0 := alpha, b1 := F32.zero, b2 := F32.zero }
+    | _ => none
+
+/-- `biquad::DirectForm1<f32>` -/
+structure DirectForm1 where
+  y1 : F32
+  y2 : F32
+  x1 : F32
+  x2 : F32
+  coeffs : Coefficients
+deriving Inhabited
+
+def DirectForm1.new (c : Coefficients) : DirectForm1 :=
+  { y1 := F32.zero, y2 := F32.zero, x1 := F32.zero, x2 := F32.zero, coeffs := c }
+
+def DirectForm1.update_coefficients (d : DirectForm1) (c : Coefficients) : DirectForm1 := { d with coeffs := c }
+
+/-- `run(input)`: `b0*in + b1*x1 + b2*x2 - a1*y1 - a2*y2`, left to right, every product and sum rounded -/
+def DirectForm1.run (d : DirectForm1) (x : F32) : DirectForm1 × F32 :=
+  let c := d.coeffs
+  let out := F32.sub (F32.sub (F32.add (F32.add (F32.mul c.b0 x) (F32.mul c.b1 d.x1)) (F32.mul c.b2 d.x2)) (F32.mul c.a1 d.y1))
+    (F32.mul c.a2 d.y2)
+  ({ d with x2 := d.x1, x1 := x, y2 := d.y1, y1 := out }, out)
+
+end Deps
